@@ -422,7 +422,7 @@ func (x *Exec) backEdge(fr *frame, li *loopInfo, s *State, cond Term) {
 	x.oblCount[fmt.Sprintf("%s#be%d", fr.fn, li.ordinal)]++
 	be := x.oblCount[fmt.Sprintf("%s#be%d", fr.fn, li.ordinal)]
 	for k, inv := range lc.Invariants {
-		x.C.Oblige(fmt.Sprintf("%s#loop%d.inv%d.preserved.%d", shortFn(fr.fn), li.ordinal, k, be), "invariant", pos, inv.Text, cond, env.evalGoal(inv.Expr))
+		x.obligeKnown(env, fmt.Sprintf("%s#loop%d.inv%d.preserved.%d", shortFn(fr.fn), li.ordinal, k, be), "invariant", pos, inv.Text, cond, env.evalGoal(inv.Expr))
 	}
 	if lc.Decreases != nil {
 		v0 := fr.variants[li.header][0]
